@@ -36,6 +36,10 @@ var (
 	vsConv = []string{"data.cva:AA", "cdata.cva:CVA:AA", "-data.cva:BB", "sdata.cva:BB"}
 	vsIDs  = []string{"id:0,2", "id:1:", "id:3:5", "id:0", "id:2,4,6"}
 	vsRefs = []string{"tag:%s", "-tag:%s", "tag:%s sport:80", "tag:%s or cport:1001", "tag:%s cdata:aa"}
+	// definitions with a sub-query (the name q is replaced by one that is unique per tag: definitions of pending tags
+	// are inlined into searches without renaming their sub-queries)
+	vsSub = []string{"@q:cport:1000 sport:@q:sport@", "@q:cbytes:4: id:@q:id@+1:", "@q:sport:443 chost:@q:chost@", "@q:cdata:aa cport:@q:cport@:",
+		"-@q:sport:80 ftime:@q:ftime@:", "@q:cport:1001:1002 -id:@q:id@ sbytes:@q:sbytes@:"}
 )
 
 type vsConfig struct {
@@ -175,6 +179,23 @@ func (r *vsRun) genDef(name string, existing []string) string {
 		return rapid.SampledFrom(vsIDs).Draw(rt, "markdef")
 	}
 	pools := [][]string{vsPlain, vsPlain, vsData, vsData}
+	// definitions with a sub-query are kept apart: only tag/d gets them and no other tag refers to tag/d, so that
+	// neither a negation above a pending sub-query tag nor a sub-query inside a sub-query can arise (open findings
+	// F-C06-negated-pending-subquery-tag, F-C06-nested-subquery-tags)
+	if name == "tag/d" {
+		pools = [][]string{vsSub, vsSub, vsPlain}
+		var marks []string
+		for _, n := range existing {
+			if strings.HasPrefix(n, "mark/") {
+				marks = append(marks, n)
+			}
+		}
+		if len(marks) != 0 && rapid.IntRange(0, 2).Draw(rt, "submark") == 0 {
+			_, sub, _ := strings.Cut(rapid.SampledFrom(marks).Draw(rt, "submarktag"), "/")
+			return fmt.Sprintf("@qtd:mark:%s sport:@qtd:sport@", sub)
+		}
+		return strings.ReplaceAll(rapid.SampledFrom(rapid.SampledFrom(pools).Draw(rt, "pool")).Draw(rt, "def"), "@q:", "@qtd:")
+	}
 	if !r.open["F-C06-id-only-tags"] {
 		pools = append(pools, vsIDs)
 	}
@@ -183,15 +204,38 @@ func (r *vsRun) genDef(name string, existing []string) string {
 	}
 	var others []string
 	for _, n := range existing {
-		if n != name {
+		if n != name && n != "tag/d" {
 			others = append(others, n)
 		}
 	}
 	if len(others) != 0 && rapid.IntRange(0, 2).Draw(rt, "ref") == 0 {
 		o := rapid.SampledFrom(others).Draw(rt, "reftag")
+		if r.open["F-C06-nested-subquery-tags"] && r.referencedInSubQuery(name) && r.subQueryTag(o) {
+			if r.c != nil {
+				r.c.Count("excluded_known", 1)
+				r.c.Label("steered:F-C06-nested-subquery-tags")
+			}
+			return "cport:1001:1003"
+		}
 		typ, sub, _ := strings.Cut(o, "/")
 		tmpl := rapid.SampledFrom(vsRefs).Draw(rt, "reftmpl")
-		return fmt.Sprintf(strings.Replace(tmpl, "tag:", typ+":", 1), sub)
+		if r.open["F-C06-nested-subquery-tags"] && strings.HasPrefix(tmpl, "@q:") && r.subQueryTag(o) {
+			// a tag filter inside a sub-query on a tag whose own definition uses a sub-query cannot be inlined (open finding)
+			if r.c != nil {
+				r.c.Count("excluded_known", 1)
+				r.c.Label("steered:F-C06-nested-subquery-tags")
+			}
+			tmpl = "tag:%s sport:80"
+		}
+		if r.open["F-C06-negated-pending-subquery-tag"] && strings.HasPrefix(tmpl, "-") && r.subQueryTag(o) {
+			// the negation of a pending tag whose definition uses a sub-query is answered wrongly (open finding)
+			if r.c != nil {
+				r.c.Count("excluded_known", 1)
+				r.c.Label("steered:F-C06-negated-pending-subquery-tag")
+			}
+			tmpl = tmpl[1:]
+		}
+		return strings.ReplaceAll(fmt.Sprintf(strings.Replace(tmpl, "tag:", typ+":", 1), sub), "@q:", "@q"+strings.NewReplacer("/", "", "tag", "t", "service", "s", "mark", "m").Replace(name)+":")
 	}
 	def := rapid.SampledFrom(rapid.SampledFrom(pools).Draw(rt, "pool")).Draw(rt, "def")
 	if r.open["F-C02-negated-sequence-across-converter-outputs"] && len(r.cfg.converters) != 0 && strings.Contains(def, " then ") {
@@ -203,7 +247,76 @@ func (r *vsRun) genDef(name string, existing []string) string {
 		}
 		def = "cdata:aa sdata:bb"
 	}
-	return def
+	return strings.ReplaceAll(def, "@q:", "@q"+strings.NewReplacer("/", "", "tag", "t", "service", "s", "mark", "m").Replace(name)+":")
+}
+
+// referencedInSubQuery reports whether some tag filters on the named tag (or on a tag whose definition leads
+// to it) from inside a sub-query.
+func (r *vsRun) referencedInSubQuery(name string) bool {
+	var defs map[string]string
+	_ = r.e.inLoop(func() {
+		defs = map[string]string{}
+		for n, t := range r.e.mgr.tags {
+			defs[n] = t.definition
+		}
+	})
+	// tags reachable from a sub-query reference
+	reach := map[string]bool{}
+	var walk func(n string)
+	walk = func(n string) {
+		if reach[n] {
+			return
+		}
+		reach[n] = true
+		if q, err := query.Parse(defs[n]); err == nil {
+			f := q.Conditions.Features()
+			for _, ref := range append(append([]string{}, f.MainTags...), f.SubQueryTags...) {
+				walk(ref)
+			}
+		}
+	}
+	for _, d := range defs {
+		if q, err := query.Parse(d); err == nil {
+			for _, ref := range q.Conditions.Features().SubQueryTags {
+				walk(ref)
+			}
+		}
+	}
+	return reach[name]
+}
+
+// subQueryTag reports whether the definition of the tag, or of a tag it refers to, uses a sub-query.
+func (r *vsRun) subQueryTag(name string) bool {
+	var defs map[string]string
+	_ = r.e.inLoop(func() {
+		defs = map[string]string{}
+		for n, t := range r.e.mgr.tags {
+			defs[n] = t.definition
+		}
+	})
+	seen := map[string]bool{}
+	var walk func(n string) bool
+	walk = func(n string) bool {
+		if seen[n] {
+			return false
+		}
+		seen[n] = true
+		q, err := query.Parse(defs[n])
+		if err != nil {
+			return false
+		}
+		f := q.Conditions.Features()
+		if f.SubQueryFeatures != 0 || len(f.SubQueryTags) != 0 {
+			return true
+		}
+		for _, ref := range f.MainTags {
+			if walk(ref) {
+				return true
+			}
+		}
+		return false
+	}
+	return walk(name)
 }
 
 // tagJobInFlight reports whether a tagging job is between begin and delivery.
@@ -323,7 +436,7 @@ func (r *vsRun) stepRecreate() {
 		defs = map[string]string{}
 		for n, t := range r.e.mgr.tags {
 			defs[n] = t.definition
-			if len(t.referencedBy) == 0 {
+			if len(t.referencedBy) == 0 && n != "tag/d" { // tag/d may get a sub-query definition and is never referenced
 				cands = append(cands, n)
 			}
 		}
@@ -878,6 +991,32 @@ func (r *vsRun) checkViewTags(midflight bool) {
 			}
 		}
 	}
+	// tags whose definition uses a sub-query, directly or through the tags they reference
+	subDep := map[string]bool{}
+	for changed := true; changed; {
+		changed = false
+		for _, n := range names {
+			if subDep[n] {
+				continue
+			}
+			q, err := query.Parse(defs[n])
+			if err != nil {
+				continue
+			}
+			f := q.Conditions.Features()
+			dep := f.SubQueryFeatures != 0 || len(f.SubQueryTags) != 0
+			for _, ref := range f.MainTags {
+				dep = dep || subDep[ref]
+			}
+			if dep {
+				subDep[n] = true
+				changed = true
+			}
+		}
+	}
+	pendingSub := func(n string) bool {
+		return r.open["F-C06-negated-pending-subquery-tag"] && subDep[n] && !v.tagDetails[n].Uncertain.IsZero()
+	}
 	depth := map[string]int{}
 	for round := 0; round < 8; round++ {
 		for _, n := range names {
@@ -920,6 +1059,10 @@ func (r *vsRun) checkViewTags(midflight bool) {
 				// of products over the reference chain (exponential by construction, C14's text exempts it)
 				if midflight && depth[n] >= 3 {
 					r.c.Count("negated_search_skipped_deep_reference_chain", 1)
+					continue
+				}
+				if pendingSub(n) {
+					r.c.Count("excluded_known", 1)
 					continue
 				}
 				qs = "-" + qs
@@ -972,7 +1115,7 @@ func (r *vsRun) checkViewTags(midflight bool) {
 		a, b := usable[ia], usable[ib]
 		form := rapid.SampledFrom([]string{"or", "and", "andnot", "ornot"}).Draw(r.rt, "pairform")
 		negB := form == "andnot" || form == "ornot"
-		if negB && ((anyConv && dataDep[b]) || (midflight && depth[b] >= 3)) {
+		if negB && ((anyConv && dataDep[b]) || (midflight && depth[b] >= 3) || pendingSub(b)) {
 			form, negB = "or", false
 		}
 		if midflight && depth[a]+depth[b] >= 5 {
